@@ -19,7 +19,8 @@ func init() {
 		NeedSSA:  true,
 		Explanation: "Decides the structural part of configuration and exit-status handling: every field of config.Config is merged by Merge with the receiver's list first and the same field on both sides, normalised by Load, and 'inherit' splices the inherited list in place (R11.1); configuration files are collected from the package directory upwards, the default is appended, the list is reversed and folded left so that outer files come first and inner files can inherit from them, and the command line is merged over the package's configuration (R11.2); " +
 			"printDiagnostics returns non-zero only if a counted error exists and the formatter is not SARIF, errors are counted only for non-ignored problems whose category is in the -fail set or is compile/config/staticcheck, and ignored problems are removed before counting (R11.3); every formatter renders every problem it is given (no filtering inside a formatter) and all formatters receive the same list (R11.4); -checks and -fail are resolved against the same analyzer-name universe by the same function (R11.5). " +
-			"It does NOT decide the left-to-right algebra of check lists, globs and negation over all configurations (string semantics).",
+			"It does NOT decide the left-to-right algebra of check lists, globs and negation over all configurations (string semantics)." +
+			" Also decided: nothing the runner executes when it has to analyse a package — including function values handed to it — reads the check selection (all analyzers always run; selection is applied afterwards).",
 		RuleText:    "field-by-field agreement between Config, Merge and Load; value-origin and guard-edge rules on the SSA of config, lintcmd and runner",
 		Assumptions: []string{"the TOML decoder fills Config fields by their tags"},
 		Run:         runC11,
